@@ -181,7 +181,7 @@ def run(ctx):
         for s in range(nseq):
             lay = obsutil.gen_layout(rng, nmin=5, nmax=12)
             pool = [obsutil.make_obs(pe, rng, lay, "positive"), obsutil.make_obs(pe, rng, obsutil.derive_layout(rng, lay, rng.choice(obsutil.DERIVE_MODES)), "positive"),
-                    pe.cov_Obs(1.5, 0.25, "cvA"), pe.CObs(obsutil.make_obs(pe, rng, lay, "int"), obsutil.make_obs(pe, rng, lay, "int"))]
+                    pe.cov_Obs(1.5, 0.25, "cvA"), pe.cov_Obs(3, 0.25, "cvI"), pe.cov_Obs([2, 1.5], [[0.25, 0.0], [0.0, 0.04]], "cvL")[0], pe.CObs(obsutil.make_obs(pe, rng, lay, "int"), obsutil.make_obs(pe, rng, lay, "int"))]
             nums = [2, -3, 0.5, 1.5 + 2j, complex(2.0), 1j * 1j, 0.25j, np.float64(1.25), np.int64(3)]
             for step in range(10):
                 a = rng.choice(pool)
